@@ -168,3 +168,22 @@ def damages(rng, lines, spans, expected, ignore_garbage):
         # 4. a body line replaced by an illegal one
         dl = lines[:pos] + [bad] + lines[pos + 1:]
         yield 'body_line_replaced', dl, pos, bad
+        # 5. one body line with its sign flipped so that ONE side ends early
+        #    (the other gets a surplus line). Only where what follows is
+        #    unambiguous: end of input, or directly another hunk header.
+        follows_header = end < len(lines) and lines[end].startswith(b'@@ -')
+        at_eof = end == len(lines)
+        if follows_header or at_eof:
+            flips = {b'-': b'+', b'+': b'-', b' ': rng.choice([b'+', b'-'])}
+            cands = [b for b in body if lines[b][:1] in flips and
+                     not lines[b].startswith(MARKER[:1])]
+            if cands:
+                pos = rng.choice(cands)
+                old = lines[pos]
+                new = flips[old[:1]] + old[1:]
+                dl = lines[:pos] + [new] + lines[pos + 1:]
+                if at_eof:
+                    yield 'sign_flipped_side_ends_early', dl, \
+                        len(dl) - 1, dl[-1]
+                else:
+                    yield 'sign_flipped_side_ends_early', dl, end, lines[end]
